@@ -108,6 +108,12 @@ def finish(mod, pid, tier, seed, phases, results, wall, write_evidence=True):
         det = ent['detail']
         for k in list(det)[:8]:
             print('   %s: %s' % (k, _printable(str(det[k])[:600])))
+    if violations or known_hit:
+        d = os.path.join(HERE, 'replays', pid)
+        os.makedirs(d, exist_ok=True)
+        with open(os.path.join(d, '_summary.json'), 'w') as f:
+            json.dump({'violations': [{'signature': _jsonable(e['signature']), 'count': e['count']} for e in violations],
+                       'known': [{'what': h['what'], 'count': c} for h, c, n in known_hit.values()]}, f, indent=1)
     if len(violations) > 25:
         print('   ... and %d more violation classes' % (len(violations) - 25))
 
